@@ -43,6 +43,19 @@ func New[T any](ctx context.Context, cap int) (<-chan T, chan<- T) {
 		for {
 			select {
 			case <-ctx.Done():
+				// values already accepted into the input buffer are part of the backlog
+				for parked := true; parked; {
+					select {
+					case x, ok := <-in:
+						if ok {
+							enq(&x, mq)
+						} else {
+							parked = false
+						}
+					default:
+						parked = false
+					}
+				}
 				for mq.head != nil {
 					eg <- head(mq)
 					deq(mq)
